@@ -240,6 +240,24 @@ def whole_path(ctx, V):
         sc = pmcheck.Scenario(cfg, [("connect",), ("wait", 0), ("send", 0, b" " * (tot - len(data)) + data), ("wait", 0)], dict(style="directed", ncli=1, padded=tot, no_replay=True))
         sc.requests.append(dict(client=0, line="%s %s" % (w, long_), word=w, targets=[long_], mode="padded", step=2))
         scs.append(sc)
+    # directed: a ranged script handed a plug expression of 80 characters or more (names that do not compress): the text the device
+    # receives must be the whole expression (the %s of a ranged send goes through a fixed-size first attempt that has to grow)
+    for j in range(8 if ctx.tier == "quick" else 120):
+        rng = ctx.rng
+        cfg = pmgen.Config()
+        kinds = ["login", "status"] + rng.choice([["on_ranged", "off_ranged"], ["on", "off", "on_ranged", "off_ranged"], ["on_ranged", "off_ranged", "cycle_ranged", "reset_ranged"]])
+        d = pmgen.Dev("d0", kinds)
+        names = [w + rng.choice(["-compute-blade", "-io", "-login-node", "-gpu-partition-a"]) for w in rng.sample(pmgen.LONG_WORDS, rng.randint(7, 12))]
+        cfg.devs.append(d); cfg.truth["d0"] = {n: n for n in names}
+        cfg.node_lines.append((",".join(names), "d0", None))
+        S = [("connect",), ("wait", 0)]
+        sc = pmcheck.Scenario(cfg, S, dict(style="directed-long-ranged", ncli=1))
+        for _ in range(3):
+            tg = rng.sample(names, rng.randint(5, len(names)))
+            w = rng.choice([k[:-7] for k in kinds if k.endswith("_ranged")])
+            S += [("send", 0, ("%s %s\r\n" % (w, ",".join(tg))).encode()), ("wait", 0)]
+            sc.requests.append(dict(client=0, line="%s %s" % (w, ",".join(tg)), word=w, targets=tg, mode="long-ranged", step=len(S) - 2))
+        scs.append(sc)
     pmcheck.run_batch(ctx, V, exe, scs, ["alive", "c01", "protocol"], "c01d")
 
 
